@@ -24,10 +24,10 @@ def showEvents (evs : List JEvent) : String :=
     | _ => none
   if emits.isEmpty then "-" else ";".intercalate emits
 
-def reply (ss : Session) : String × Session :=
+def reply (ss : Session) (pa : Bool := false) : String × Session :=
   let s := ss.st
   let news := s.events.drop ss.printed
-  (s!"st={showPc s.pc} buf={showList s.buf} out={showEvents news} unrel={showBool s.unreleased}",
+  (s!"st={showPc s.pc} buf={showList s.buf} out={showEvents news} unrel={showBool s.unreleased} pa={showBool pa}",
    { ss with printed := s.events.length })
 
 def start (toks : List String) : Option (String × Option Session) :=
@@ -39,9 +39,9 @@ def start (toks : List String) : Option (String × Option Session) :=
     some (r, some ss)
   | _ => none
 
-def act (ss : Session) (a : JAct) : Option (String × Session) :=
+def act (ss : Session) (a : JAct) (showPa : Bool := true) : Option (String × Session) :=
   match jstep ss.st a with
-  | some st => some (reply { ss with st := st, now := ss.now + 1 })
+  | some st => some (reply { ss with st := st, now := ss.now + 1 } (showPa && st.passAt != ss.st.passAt))
   | none => none
 
 def op (ss : Session) (toks : List String) : Option (String × Session) :=
@@ -51,7 +51,7 @@ def op (ss : Session) (toks : List String) : Option (String × Session) :=
   | ["close"] => act ss (.close ss.now)
   | ["release"] => act ss (.release ss.now)
   | ["stop"] => act ss .stop
-  | ["stopseen"] => act ss (.stopSeen ss.now)
+  | ["stopseen"] => act ss (.stopSeen ss.now) false
   | _ => none
 
 end Cqos.DriverJoin
